@@ -196,7 +196,7 @@ func (c08) Describe() CheckInfo {
 		},
 		RealCode:       []string{"gopatch main(), loader, internal/parse (section splitter, meta parser), internal/pgo (augmenter), internal/engine, patch.Parse/File.Apply"},
 		Stubs:          []string{"package os (patch delivered through simulated files and a chunked simulated stdin)", "path/filepath walk", "io/ioutil"},
-		RequiredProbes: []string{"trunc-patch", "trunc-target", "flip-patch", "flip-target", "cross", "read-error-fired", "ill-typed", "op-fault", "ill-cross", "scale", "two-change", "bulk", "bulk-memory-measured", "tree", "tree-symlink-cycle", "patch-rejected", "patch-accepted", "stdin-short-reads", "api-parse", "api-apply"},
+		RequiredProbes: []string{"trunc-patch", "trunc-target", "flip-patch", "flip-target", "cross", "read-error-fired", "ill-typed", "op-fault", "ill-cross", "scale", "two-change", "bulk", "bulk-memory-measured", "patch-list-layouts", "tree", "tree-symlink-cycle", "patch-rejected", "patch-accepted", "stdin-short-reads", "api-parse", "api-apply"},
 	}
 }
 
@@ -381,6 +381,11 @@ func (c08) Gen(env *Env, seed uint64, tier string, i int) *Case {
 	}
 	if c.Sub == "read-error" && r.Chance(1, 2) {
 		via = "P"
+	} else if r.Chance(1, 8) && len(c.Patches) == 0 {
+		// the patch named in a list file, in every layout such a file may have
+		via = "P"
+		c.Extra["list_style"] = r.Pick([]string{"blank-lines", "ws-lines", "crlf", "no-final-nl", "comment", "trailing-space", "empty", "nul"})
+		c.Spec.Knobs.StdinChunk = 0
 	}
 	c.AddPatch("p0.patch", via, patch, nil, nil)
 	for j, in := range inputs {
@@ -493,6 +498,9 @@ func (c08) Eval(env *Env, c *Case) (vs []Violation) {
 		vs = append(vs, Violation{Oracle: oracle, Signature: "C08/" + oracle + "/" + sig, Detail: detail + " [" + c.Sub + ": " + what + "; args " + fmt.Sprint(c.Spec.Args) + "]"})
 	}
 	env.Probe(c.Sub)
+	if c.Extra["list_style"] != "" {
+		env.Probe("patch-list-layouts")
+	}
 	if c.Extra["symlink_cycle"] == "1" {
 		env.Probe("tree-symlink-cycle")
 	}
